@@ -443,21 +443,19 @@ class CellConversion:
 
         # compute the base vectors of the lattice
         domain = cell.fillid
-        if len(lat_base_vectors) != len(domain.bounds):
-            if len(lat_base_vectors) != domain.bounds.dims():
-                msg = ('Problem of domain definition for lattice; expected '
-                       f'{len(lat_base_vectors)} non-trivial bounds, got '
-                       f'{domain.bounds.dims()}')
+        n_vectors = len(lat_base_vectors)
+        if len(domain.bounds) < n_vectors:
+            msg = ('Problem of domain definition for lattice; expected '
+                   f'at least {n_vectors} bounds, got {len(domain.bounds)}')
+            raise LatticeError(msg)
+        # only the ranges beyond the dimensions of the lattice must be trivial
+        for range_ in list(domain.bounds)[n_vectors:]:
+            if range_[0] != range_[1]:
+                msg = ('Problem of domain definition for lattice; '
+                       f'expected {n_vectors} non-trivial '
+                       f'bounds, but the {range_[0]}:{range_[1]} bound is '
+                       'not trivial')
                 raise LatticeError(msg)
-            n_missing_bounds = len(lat_base_vectors) - len(domain.bounds)
-            for i in range(n_missing_bounds):
-                range_ = domain.bounds[-1 - i]
-                if range_[0] != range_[1]:
-                    msg = ('Problem of domain definition for lattice; '
-                           f'expected {len(lat_base_vectors)} non-trivial '
-                           f'bounds, but the {range_[0]}:{range_[1]} bound is '
-                           'not trivial')
-                    raise LatticeError(msg)
 
         for index, universe in domain.items():
             if universe == 0:
